@@ -552,6 +552,7 @@ func main() {
 	in := flag.String("in", "", "behaviours exported by TLC (ndjson)")
 	outp := flag.String("out", "", "observed outcomes (ndjson)")
 	mem := flag.Bool("mem", false, "the behaviours are programs of EvmMemory.tla (memory / return data / precompiles), see mem.go")
+	jump := flag.Bool("jump", false, "the behaviours are byte programs of EvmJump.tla (jump destinations, stack bounds), see jump.go")
 	flag.Parse()
 	if *in == "" || *outp == "" {
 		harnessErr("usage: evmframes -in <file> -out <file>")
@@ -583,7 +584,14 @@ func main() {
 			continue
 		}
 		var obs map[string]any
-		if *mem {
+		if *jump {
+			var b JumpBehaviour
+			if err := json.Unmarshal(line, &b); err != nil {
+				harnessErr("bad behaviour line %d: %v", n+1, err)
+			}
+			n++
+			obs = w.runJump(&b)
+		} else if *mem {
 			var b MemBehaviour
 			if err := json.Unmarshal(line, &b); err != nil {
 				harnessErr("bad behaviour line %d: %v", n+1, err)
